@@ -23,6 +23,21 @@ type job struct {
 	Stanzas []refage.Stanza `json:"stanzas,omitempty"`
 	File    []byte          `json:"file,omitempty"`
 	Meter   bool            `json:"meter"`
+	// Steps, when present, make the job a history: all steps run in order on
+	// ONE identity value (unless a step asks for another object), and the
+	// outcome of step i is outcome.Sub[i]. Route/Stanzas/File/Meter above are
+	// then unused.
+	Steps []step `json:"steps,omitempty"`
+}
+
+// step is one call in a history.
+type step struct {
+	Route   string          `json:"route"`
+	Stanzas []refage.Stanza `json:"stanzas,omitempty"`
+	File    []byte          `json:"file,omitempty"`
+	SetMax  int             `json:"set_max,omitempty"` // > 0: SetMaxWorkFactor(SetMax) before the call
+	NewID   bool            `json:"new_id,omitempty"`  // before the call, continue with another identity object (same passphrase, current maximum)
+	Meter   bool            `json:"meter"`
 }
 
 // outcome is what the code under test did with a job.
@@ -34,6 +49,8 @@ type outcome struct {
 	Err      string `json:"err,omitempty"`
 	Delta    uint64 `json:"delta"` // growth of TotalAlloc across the call (Meter only)
 	Panic    string `json:"panic,omitempty"`
+
+	Sub []outcome `json:"sub,omitempty"` // per step, for a history
 }
 
 var sink []byte
@@ -50,19 +67,49 @@ func toAge(st []refage.Stanza) []*age.Stanza {
 // identity's decision (Unwrap, or Decrypt up to the returned reader) is inside
 // the metered region; reading the payload happens afterwards.
 func execute(j *job) (o outcome) {
-	id, err := age.NewScryptIdentity(j.Pass)
+	newID := func(max int) (*age.ScryptIdentity, error) {
+		id, err := age.NewScryptIdentity(j.Pass)
+		if err != nil {
+			return nil, err
+		}
+		if max != 0 {
+			id.SetMaxWorkFactor(max)
+		}
+		return id, nil
+	}
+	id, err := newID(j.Max)
 	if err != nil {
 		o.Err = "harness: " + err.Error()
 		return o
 	}
-	if j.Max != 0 {
-		id.SetMaxWorkFactor(j.Max)
+	if len(j.Steps) == 0 {
+		return runCall(id, j.Route, j.Stanzas, j.File, j.Meter)
 	}
+	cur := j.Max
+	for _, st := range j.Steps {
+		if st.SetMax > 0 {
+			cur = st.SetMax
+		}
+		if st.NewID {
+			if id, err = newID(cur); err != nil {
+				o.Err = "harness: " + err.Error()
+				return o
+			}
+		} else if st.SetMax > 0 {
+			id.SetMaxWorkFactor(st.SetMax)
+		}
+		o.Sub = append(o.Sub, runCall(id, st.Route, st.Stanzas, st.File, st.Meter))
+	}
+	return o
+}
+
+// runCall performs one Unwrap / Decrypt on the given identity value.
+func runCall(id *age.ScryptIdentity, route string, stanzas []refage.Stanza, file []byte, meter bool) (o outcome) {
 	var rd io.Reader
 	var call func()
-	switch j.Route {
+	switch route {
 	case "Unwrap":
-		st := toAge(j.Stanzas)
+		st := toAge(stanzas)
 		call = func() {
 			fk, err := id.Unwrap(st)
 			if err != nil {
@@ -72,7 +119,7 @@ func execute(j *job) (o outcome) {
 			o.Accepted, o.Key = true, fk
 		}
 	case "Decrypt":
-		src := bytes.NewReader(j.File)
+		src := bytes.NewReader(file)
 		call = func() {
 			r, err := age.Decrypt(src, id)
 			if err != nil {
@@ -90,7 +137,7 @@ func execute(j *job) (o outcome) {
 			sink = nil
 		}
 	default:
-		o.Err = "harness: unknown route " + j.Route
+		o.Err = "harness: unknown route " + route
 		return o
 	}
 	guarded := func() {
@@ -101,7 +148,7 @@ func execute(j *job) (o outcome) {
 		}()
 		call()
 	}
-	if j.Meter {
+	if meter {
 		o.Delta = mon.AllocDelta(guarded)
 	} else {
 		guarded()
